@@ -144,6 +144,17 @@ def smoke(prop, cfg, limit=60, seed=20260929):
         rep['queries'] += rep2['queries']
         rep['no_implicit_prelude'] = dict(items=rep2['items'], queries=rep2['queries'])
         fails += filter_failures(prop, rep2)
+    if prop in ('C02', 'C14'):
+        # the same items written by a `macro_rules!` with the field types as its arguments (macro hygiene of locals)
+        its = [(n, it) for n, it in items if not getattr(it, 'expect_error', None)]
+        rep3 = bharness.run_b(b_config(prop, cfg), its, hostile='mrules')
+        for f in rep3['failures']:
+            f['scope'] = 'item written by a macro_rules! whose arguments are the field types'
+        for ce in rep3['compile_errors'].values():
+            ce['source'] = 'macro_rules! m { ($f0:ty, ..) => { ' + ce['source'] + ' } }  // field types passed as arguments'
+        rep['queries'] += rep3['queries']
+        rep['macro_rules'] = dict(items=rep3['items'], queries=rep3['queries'])
+        fails += filter_failures(prop, rep3)
     return rep, fails, rep['model_failures']
 
 
